@@ -317,6 +317,42 @@ var deepConstructs = []deepConstruct{
 	{"js:with", "js.Parse", "with(a)", "b", "", "", ""},
 	{"js:yield", "js.Parse", "function*g(){yield ", "a", "}", "", ""},
 	{"js:group-arrow-head", "js.Parse", "(a,(", "b", "))", "", ""},
+	{"js:async-call", "js.Parse", "async(", "1", ")", "", ""},
+	{"js:async-call-assigned", "js.Parse", "x=async(", "1", ")", "", ""},
+	{"js:async-call-second-arg", "js.Parse", "async(a,async(", "1", "))", "", ""},
+	{"js:async-arrow", "js.Parse", "async a=>", "b", "", "", ""},
+	{"js:async-paren-arrow", "js.Parse", "async(a)=>", "b", "", "", ""},
+	{"js:call-args", "js.Parse", "f(", "a", ")", "", ""},
+	{"js:new-args", "js.Parse", "new a(", "b", ")", "", ""},
+	{"js:optional-call", "js.Parse", "a?.(", "b", ")", "", ""},
+	{"js:import-call", "js.Parse", "import(", "a", ")", "", ""},
+	{"js:tagged-template", "js.Parse", "a`${", "b", "}`", "", ""},
+	{"js:computed-key", "js.Parse", "x={[", "a", "]:1}", "", ""},
+	{"js:object-method", "js.Parse", "x={m(){", "", "}}", "", ""},
+	{"js:object-getter", "js.Parse", "x={get a(){return ", "1", "}}", "", ""},
+	{"js:class-method", "js.Parse", "class A{m(){", "", "}}", "", ""},
+	{"js:class-static-block", "js.Parse", "class A{static{", "", "}}", "", ""},
+	{"js:class-extends", "js.Parse", "x=class extends ", "B", "{}", "", ""},
+	{"js:class-computed", "js.Parse", "x=class{[", "a", "](){}}", "", ""},
+	{"js:arrow-default", "js.Parse", "(a=", "b", ")=>1", "", ""},
+	{"js:arrow-paren-body", "js.Parse", "a=>(", "b", ")", "", ""},
+	{"js:arrow-block-body", "js.Parse", "a=>{", "", "}", "", ""},
+	{"js:yield-star", "js.Parse", "function*g(){yield*", "a", "}", "", ""},
+	{"js:delete", "js.Parse", "delete ", "a", "", "", ""},
+	{"js:void", "js.Parse", "void ", "a", "", "", ""},
+	{"js:prefix-incr", "js.Parse", "++", "a", "", "", ""},
+	{"js:array-spread", "js.Parse", "[...", "a", "]", "", ""},
+	{"js:object-spread", "js.Parse", "x={...", "a", "}", "", ""},
+	{"js:object-in-arrow-head", "js.Parse", "({a:", "b", "})", "", ""},
+	{"js:array-in-arrow-head", "js.Parse", "([", "a", "])", "", ""},
+	{"js:pattern-default-in-arrow-head", "js.Parse", "({a=", "1", "})=>1", "", ""},
+	{"js:async-await", "js.Parse", "async function f(){await ", "a", "}", "", ""},
+	{"js:template-in-template", "js.Parse", "`a${`b${", "c", "}`}`", "", ""},
+	{"js:for-of-nested", "js.Parse", "for(a of b)", "c", "", "", ""},
+	{"js:for-await", "js.Parse", "async function f(){for await(a of b)", "c", "}", "", ""},
+	{"js:export-default-arrow", "js.Parse", "export default a=>", "b", "", "", ""},
+	{"js:in-operator", "js.Parse", "a in ", "b", "", "", ""},
+	{"js:exp-unary-paren", "js.Parse", "(-", "a", ")**2", "", ""},
 	{"js:lexer-template", "js.lexer.plain", "`${", "a", "}`", "", ""},
 	{"js:lexer-braces", "js.lexer.plain", "{(", "a", ")}", "", ""},
 	{"css:block", "css.parser.stylesheet", "a{", "b:c", "}", "", ""},
